@@ -173,6 +173,9 @@ def check(prop, tier, replay_case=None, replay_config=None):
         notes.extend(res["notes"])
         if res["counters"].get("harness_error") or res["counters"].get("oracle_error"):
             inconclusive.append(f"harness-error:{name}")
+        if spec.get("suite") and res["counters"].get("suite_stable_pass_lost", 0) != 0:
+            # the monitors changed the behaviour of the program under test (or the suite could not be read)
+            inconclusive.append(f"monitors-not-transparent:{name}:lost={res['counters'].get('suite_stable_pass_lost')}")
 
     # backend agreement by log join
     if hasattr(mod, "join_digests") and len(digests) > 1 and replay_case is None:
